@@ -255,6 +255,9 @@ class Gen:
         return self.lit_int() if want == INT else self.lit_str()
 
     def call(self, f, sc, d):
+        if self.loop_depth > 0 and self.r.below(3):
+            # calls inside loops multiply along the call chain fn3 -> fn2 -> ...: keep most of them out of loops
+            return {INT: self.lit_int(), STR: self.lit_str(), INTS: "[]int{4, 5}"}[f[2]]
         self.f("call")
         return "%s(%s)" % (f[0], ", ".join(self.expr(p, sc, d + 2) for p in f[1]))
 
@@ -314,8 +317,9 @@ class Gen:
                 if t == INT and r.below(4) == 0:
                     self.f("incdec")
                     return [ind + n + self.pick(["++", "--"])]
-                if t == STR and r.below(3) == 0:
-                    return [ind + "%s += %s" % (n, self.expr(STR, sc, 1))]
+                if t == STR:
+                    # clip keeps strings short: repeated self-concatenation in nested loops grows exponentially
+                    return [ind + "%s = clip(%s + %s)" % (n, n, self.expr(STR, sc, 1))]
                 if t == MAP and r.below(2):
                     self.f("map-store")
                     return [ind + "%s[%s] = %s" % (n, self.expr(STR, sc, 2), self.expr(INT, sc, 1))]
@@ -323,7 +327,10 @@ class Gen:
                     st = [s for s in self.structs if s[0] == t][0]
                     fn, ft = self.pick(st[1])
                     self.f("field-store")
-                    return [ind + "%s.%s = %s" % (n, fn, self.expr(ft, sc, 1))]
+                    e = self.expr(ft, sc, 1)
+                    if ft == STR:
+                        e = "clip(%s)" % e
+                    return [ind + "%s.%s = %s" % (n, fn, e)]
                 self.f("assign")
                 return [ind + "%s = %s" % (n, self.expr(t, sc, 1))]
             return [ind + self.println([self.expr(INT, sc)])]
@@ -542,6 +549,13 @@ func cut(xs []int, lo, hi int) []int {
 	return xs[lo:hi]
 }
 
+func clip(s string) string {
+	if len(s) > 40 {
+		return s[:40]
+	}
+	return s
+}
+
 func tr(name string, v int) int {
 	fmt.Println("init", name, v)
 	return v
@@ -578,7 +592,7 @@ func keys(m map[string]int) []string {
                 gl.append("var %s = tr(\"%s\", %s)" % (g, g, self.expr(INT, self.root, 2)))
             else:
                 gl.append("var %s = fmt.Sprint(tr(\"%s\", %s), %s)" % (g, g, self.lit_int(), self.expr(STR, self.root, 2)))
-            self.root.add(g, t)
+            self.root.add(g, t, t == INT)      # string globals are read-only after their initialisation
             self.f("package-var")
         if gl:
             decls.append(gl)
